@@ -260,26 +260,26 @@ def r3(ck, F, rid="C04.R3"):
             ck.bad(rid, "for_each loads head/next with >= Acquire", where(fe.raw["sp"]), "%d loads, weak orderings %s" % (n, bad), fn=fe.path)
 
 
-def r4(ck, F):
+def r4(ck, F, rid="C04.R4"):
     b = F.body(MS + "::register")
-    if not ck.anchor("C04.R4", "MacroCallsite::register", b):
+    if not ck.anchor(rid, "MacroCallsite::register", b):
         return
     consts = {n: F.consts.get("%s::<T>::%s" % (MS, n), {}).get("val", {}).get("int") for n in ("UNREGISTERED", "REGISTERING", "REGISTERED")}
     if len(set(consts.values())) == 3 and None not in consts.values():
-        ck.ok("C04.R4", "three distinct registration states", detail=consts)
+        ck.ok(rid, "three distinct registration states", detail=consts)
     else:
-        ck.bad("C04.R4", "three distinct registration states", MS, "states %s" % consts)
+        ck.bad(rid, "three distinct registration states", MS, "states %s" % consts)
     cas = [(bb, t) for bb, t in b.calls() if t["callee"].get("method") == "compare_exchange"]
     if len(cas) != 1:
-        ck.bad("C04.R4", "one CAS on the register byte", where(b.raw["sp"]), "%d CAS sites" % len(cas))
+        ck.bad(rid, "one CAS on the register byte", where(b.raw["sp"]), "%d CAS sites" % len(cas))
         return
     cbb, ct = cas[0]
     ops = [b.origin(a) for a in ct["argv"][1:3]]
     names = [o[1].get("def", "").rsplit("::", 1)[-1] if o[0] == "const" else "?" for o in ops]
     if names == ["UNREGISTERED", "REGISTERING"]:
-        ck.ok("C04.R4", "CAS(UNREGISTERED -> REGISTERING)", fn=b.path)
+        ck.ok(rid, "CAS(UNREGISTERED -> REGISTERING)", fn=b.path)
     else:
-        ck.bad("C04.R4", "CAS(UNREGISTERED -> REGISTERING)", where(ct["sp"]), "CAS operands %s" % names, fn=b.path)
+        ck.bad(rid, "CAS(UNREGISTERED -> REGISTERING)", where(ct["sp"]), "CAS operands %s" % names, fn=b.path)
     reg_called = False
     problems = []
     for p in PathEval(b).run():
@@ -318,17 +318,17 @@ def r4(ck, F):
                 if ret != "sometimes()":
                     problems.append("a thread that lost the race while registration is in flight returns %s (must be `sometimes`)" % ret)
     if reg_called and not problems:
-        ck.ok("C04.R4", "winner: register then publish; in-flight losers answer sometimes; registered: cached interest", fn=b.path)
+        ck.ok(rid, "winner: register then publish; in-flight losers answer sometimes; registered: cached interest", fn=b.path)
     else:
-        ck.bad("C04.R4", "winner: register then publish; in-flight losers answer sometimes; registered: cached interest", where(b.raw["sp"]),
+        ck.bad(rid, "winner: register then publish; in-flight losers answer sometimes; registered: cached interest", where(b.raw["sp"]),
                "; ".join(sorted(set(problems))) or "no CAS-winner path found", fn=b.path)
     # callsite::register is called only from MacroCallsite::register (and tests)
     callers = {x.path for x, bb, t in F.callers().get("tracing_core::callsite::inner::register", [])} | {x.path for x, bb, t in F.callers().get("tracing_core::callsite::register", [])}
     callers = {c for c in callers if not c.startswith("tracing_core::callsite::")}
     if callers <= {MS + "::register"} and callers:
-        ck.ok("C04.R4", "callsite::register is reached only through the state machine", detail=sorted(callers))
+        ck.ok(rid, "callsite::register is reached only through the state machine", detail=sorted(callers))
     else:
-        ck.bad("C04.R4", "callsite::register is reached only through the state machine", str(sorted(callers)), "callers: %s" % sorted(callers))
+        ck.bad(rid, "callsite::register is reached only through the state machine", str(sorted(callers)), "callers: %s" % sorted(callers))
 
 
 def r5(ck, F):
